@@ -85,6 +85,11 @@ def generate(r, tier):
         if r.random() < 0.2:
             inv["includes"] = [r.choice(dirs)]
         invs.append(inv)
+    for inv in invs:
+        # --includes may be given relative to the directory the tool is started in (say, from inside a project)
+        if inv["includes"] and r.random() < 0.6:
+            inc = inv["includes"][0]
+            inv["cwd"] = r.choice([inc, os.path.dirname(inc), os.path.dirname(os.path.dirname(inc)), ""])
     return {"tree": tree, "invocations": invs, "dir_salt": r.getrandbits(32), "hash_salt": r.getrandbits(32)}
 
 
@@ -168,6 +173,7 @@ def execute(sc, ctx):
     verdicts = {}
     trace = []
     flagged_any = ok_any = False
+    base_cwd = os.getcwd()
     with simproc.env(IDF_PATH=root), simfs.Installed(fs, [cdo], copyfile=False), simproc.quiet(stdout=True):
         for ii, inv in enumerate(sc["invocations"]):
             exp, checked = model(sc, inv)
@@ -175,6 +181,11 @@ def execute(sc, ctx):
             args = [os.path.join(root, (inv["files"] if kind == "f" else inv["renames"])[i]) for kind, i in order
                     if i < len(inv["files"] if kind == "f" else inv["renames"])]
             incs = [os.path.join(root, d) for d in inv["includes"]]
+            os.chdir(base_cwd)
+            if inv.get("cwd") is not None and os.path.isdir(os.path.join(root, inv["cwd"])):
+                os.chdir(os.path.join(root, inv["cwd"]))
+                incs = [os.path.relpath(p) for p in incs]
+                ctx.counters["probe:relative-includes"] += 1
             simproc.next_process()  # every invocation is a tool run of its own (own hash seed: string-set iteration order)
             try:
                 fl, g, l, ign, cache, absidf = cdo._prepare_deprecated_options(incs, [], list(args))
@@ -188,7 +199,7 @@ def execute(sc, ctx):
                 except Exception as e:
                     ctx.violate(f"C19/raise/{type(e).__name__}/check_deprecated_options", f"invocation {ii} file {full}: {e!r}")
                     continue
-                rel = os.path.relpath(full, root)
+                rel = os.path.relpath(os.path.abspath(full), root)
                 got.setdefault(rel, set()).add(v)
                 verdicts.setdefault(rel, set()).add(v)
                 ctx.events += 1
@@ -225,6 +236,7 @@ def execute(sc, ctx):
             if status is not None and status != want:
                 ctx.violate("C19/exit-status", f"invocation {ii}: exit status {status}, expected {want} (verdicts {sorted(exp.items())})")
             trace.append((ii, sorted((k, sorted(map(str, v))) for k, v in got.items()), status))
+        os.chdir(base_cwd)
         # cold single-file invocations
         for e in sc["tree"]:
             for fn in e["defaults"]:
